@@ -1,6 +1,7 @@
 mod ast;
 mod c01;
 mod c03;
+mod c04;
 mod c06;
 mod c07;
 mod c08;
@@ -9,7 +10,9 @@ mod c11;
 mod c12;
 mod c13;
 mod c14;
+mod c15;
 mod c18;
+mod oracle;
 mod c20;
 mod corpus;
 mod ev;
@@ -60,6 +63,7 @@ fn main() {
         "C01" => c01::run_c01(tier, filter, depth),
         "C02" => c01::run_c02(tier, filter, depth),
         "C03" => c03::run_check(tier, rp),
+        "C04" => c04::run(tier, rp),
         "C06" => c06::run(tier, filter),
         "C07" => c07::run(tier, filter),
         "C08" => c08::run_c08(tier, rp),
@@ -73,6 +77,7 @@ fn main() {
         }
         "C13" => c13::run(tier, rp),
         "C14" => c14::run(tier, rp),
+        "C15" => c15::run(tier, rp),
         "C18" => c18::run(tier, rp),
         "C20" => c20::run(tier, rp),
         _ => ev::machinery(&format!("unknown property {id}")),
